@@ -12,7 +12,7 @@ TTimeVals == {}
 TInit == tid \in 1..Len(TraceLines) /\ l = 1 /\ Init
 
 CaseOf(e) ==
-    CASE e.op = "item" -> [kind |-> "item", it |-> e.it, vc |-> e.vc, tok |-> e.tok, rg |-> e.rg, kv |-> e.kv, sh |-> e.sh,
+    CASE e.op = "item" -> [kind |-> "item", it |-> e.it, vc |-> e.vc, tok |-> e.tok, rg |-> e.rg, nok |-> e.nok, kv |-> e.kv, sh |-> e.sh,
                            ec |-> e.ec, ir |-> e.ir, dcl |-> IF e.sh = "default" THEN e.dcl ELSE "na"]
       [] e.op = "time" -> [kind |-> "time", fn |-> e.fn, suf |-> e.suf, vm |-> e.vm]
       [] e.op = "section" -> [kind |-> "section", mode |-> e.mode, allow |-> e.allow]
